@@ -54,6 +54,9 @@ PROPS = {
     "C11": dict(pkg="c11", level="exploration",
                 quick=[R(checks=6000)],
                 thorough=[R(checks=60000, shards=16, timeout=1500)]),
+    "C12": dict(pkg="c12", level="exploration",
+                quick=[R(checks=20000)],
+                thorough=[R(checks=200000, shards=16, timeout=1500)]),
 }
 
 ASSUMPTIONS = {
